@@ -1115,8 +1115,6 @@ def classify_failure(o, ans):
                     return "int16-lrelu-mul-max-rounds-each-branch"
     # (keys of the second C01 worker; the wide-stride average pool and the dilation-above-two zero fill are the same defects as
     # the two keys above, reached when the more specific conditions above do not hold)
-    if (ans.endswith("verdict=fail") or ans.startswith("err:out:")) and wide_stride_avgpool(o):
-        return "wide-stride-avgpool-converted-with-one-input-channel-kernel"
     if ans.endswith("verdict=fail") and mean_over_unit_axes(o):
         return "mean-over-unit-axes-drops-requantisation"
     if ans.endswith("verdict=fail") and protected_tensor_reshaped_into_elementwise(o):
@@ -1133,6 +1131,10 @@ def classify_failure(o, ans):
             return k + "-then-reshape-lowered-with-reshaped-ofm-shape"
     if ans.endswith("verdict=fail") and ofm_batch_above_one(o):
         return "ofm-batch-above-one-accepted-on-npu"
+    # (repaired: 50ebf72; asked last so that it does not shadow a finding that is still open in the same network, e.g. network 1946
+    # of seed 2: PRELU -> RESHAPE ... -> AVERAGE_POOL_2D stride (1, 5))
+    if (ans.endswith("verdict=fail") or ans.startswith("err:out:")) and wide_stride_avgpool(o):
+        return "wide-stride-avgpool-converted-with-one-input-channel-kernel"
     if not (ans.endswith("verdict=fail") or "read_outside_region" in ans) or o.get("dtype") != "int16":
         return None
     consumers = {}
